@@ -217,6 +217,9 @@ impl Property for C07 {
     fn check(case: &BoundCase, env: &mut Env) -> Verdict {
         check_c07_case(case, env)
     }
+    fn from_fuzz_bytes(d: &[u8]) -> Option<BoundCase> {
+        Some(crate::fuzzdec::decode_bound_case(d))
+    }
     fn floors() -> Vec<(&'static str, f64)> {
         vec![("negative-offset", 0.4), ("fractional-ns-sum", 0.3), ("integral-ns-sum", 0.003), ("phc", 0.3), ("sub-nanosecond-sum", 0.001)]
     }
@@ -427,6 +430,9 @@ impl Property for C10 {
     }
     fn check(case: &ClassCase, env: &mut Env) -> Verdict {
         check_c10_case(case, env)
+    }
+    fn from_fuzz_bytes(d: &[u8]) -> Option<ClassCase> {
+        Some(crate::fuzzdec::decode_class_case(d))
     }
     fn floors() -> Vec<(&'static str, f64)> {
         vec![("at-8-interval-threshold", 0.1), ("future-ref-time", 0.1), ("leap-invalid", 0.1), ("fractional-8I", 0.2)]
